@@ -49,8 +49,10 @@ def _guarded_worker(conn, repo):
     while True:
         msg = conn.recv()
         if msg is None:
+            core._cov_tick(force=True)
             break
         conn.send(core._call(msg))
+        core._cov_tick(force=True) if os.environ.get('VERIF_COVERAGE_DIR') else None
 
 
 def guarded_pmap(modname, fname, jobs, limit, workers=None):
